@@ -665,8 +665,22 @@ def compare(ours_path, ref_path):
         # every delta kind found must be an enumerated one; counts may be lower (a dropped cancellation
         # check only makes the sort less cancellable, which the property allows)
         delta_ok = all(k in exp and delta[k] <= exp[k] for k in delta)
+        changed = 0
+        if not ok:
+            import difflib
+            sm = difflib.SequenceMatcher(None, o, r, autojunk=False)
+            ops = [(tag, i1, i2, j1, j2) for tag, i1, i2, j1, j2 in sm.get_opcodes() if tag != "equal"]
+            changed = sum(max(i2 - i1, j2 - j1) for tag, i1, i2, j1, j2 in ops)
+            # separate places that differ (variable renumbering after an insertion shows up as 1-token replacements
+            # of one `wN` by another: those do not count as places of their own)
+            regions = 0
+            for tag, i1, i2, j1, j2 in ops:
+                a_, b_ = o[i1:i2], r[j1:j2]
+                if tag == "replace" and len(a_) == len(b_) and all(x.startswith("w") and x[1:].isdigit() and y.startswith("w") and y[1:].isdigit() for x, y in zip(a_, b_)):
+                    continue
+                regions += 1
         res["items"].append({"name": name, "equal": ok, "tokens": len(r), "delta": delta, "delta_expected": exp,
-                             "delta_ok": delta_ok, "first_difference": first})
+                             "delta_ok": delta_ok, "first_difference": first, "changed_tokens": changed, "changed_regions": (regions if not ok else 0)})
     for name in o_order:
         if name not in r_items and not name.startswith("mod "):
             res["extra"].append(name)
